@@ -809,6 +809,7 @@ CORPUS = [
         {"op": "create", "f": 0, "c": 9}, {"op": "create", "f": 1, "c": 5}, {"op": "create", "f": 2, "c": 0},
         {"op": "ibuild", "s": "A"}, {"op": "imd5", "s": "A", "alg": "md5"},
         {"op": "write", "f": 0, "c": 10, "mt": "tick"}, {"op": "replace", "f": 1, "c": 7, "mt": "same"},
+        {"op": "imd5", "s": "A", "alg": "md5"},                 # not rebuilt: entries of the changed files are re-hashed or dropped
         {"op": "ibuild", "s": "B"}, {"op": "iupdate", "s": "B"},
         {"op": "imd5", "s": "B", "alg": "md5"}, {"op": "imd5", "s": "A", "alg": "md5-dos2unix"},
         {"op": "delete", "f": 2}, {"op": "imd5", "s": "B", "alg": "sha256"},
@@ -972,12 +973,15 @@ def validate_units(ctx):  # noqa: C901, PLR0915
         mem.pipe_file(p, b"x")
         with open(p, "wb") as f:
             f.write(b"x")
-        st.save(p, mem, HashInfo("md5", "0" * 32))
-        st.save_many([(p, HashInfo("md5", "0" * 32), None)], mem)
-        wrote = len(list(st.hashes)) != 0
-        st.save(p, localfs, HashInfo("md5", digest("md5", b"x")))
-        ok = (not wrote and st.get(p, mem) == (None, None) and list(st.get_many([p], mem, {})) == [(p, None, None)]
-              and st.get(p, localfs)[1] is not None)
+        try:
+            st.save(p, mem, HashInfo("md5", "0" * 32))
+            st.save_many([(p, HashInfo("md5", "0" * 32), None)], mem)
+            wrote = len(list(st.hashes)) != 0
+            st.save(p, localfs, HashInfo("md5", digest("md5", b"x")))
+            ok = (not wrote and st.get(p, mem) == (None, None) and list(st.get_many([p], mem, {})) == [(p, None, None)]
+                  and st.get(p, localfs)[1] is not None)
+        except Exception:  # noqa: BLE001  (a non-local file system has no inode: reaching the table raises)
+            ok = False
     finally:
         st.close()
     ctx.obligation("oracle:nonlocal-bypass", ok, "save/save_many/get/get_many on a memory file system touch nothing")
